@@ -485,6 +485,8 @@ def run(ctx):
     if n_val < 5:
         ctx.anchor_missing(RULE, 'value exposures in the key tree and export', TREE_PROPS + EXPORT_PROPS, n_val, 5)
     run_list(ctx)
+    run_timepass(ctx)
+    run_list_export(ctx)
 
 
 # ---------------------------------------------------------------------------------------------
@@ -699,3 +701,91 @@ def check_purge_min(prog, fn, st, _val=None):
             if executed != live:
                 return False, 'accumulator update %s under expiration%stime' % ('runs' if executed else 'does not run', rel)
     return True, ''
+
+
+# ---- the operation's own time reaches whatever it delegates to ------------------------------------------------------------------
+def run_timepass(ctx):
+    """A public operation of an expiring collection that takes the caller's time hands exactly that value on: every argument of
+    the time type that it passes to a function of the crate is its own time parameter.  (The gates, the purge and the export
+    are held to the time THEY are given; this clause ties that time to the caller's.)"""
+    prog = ctx.prog
+    n = 0
+    for fn in prog.fns.values():
+        if fn.is_closure or not fn.trait_item or fn.family not in ('key', 'seg') or not fn.info.get('mir'):
+            continue
+        b = fn.body
+        tparams = [i for i in range(1, b.arg_count + 1) if (b.locals[i]['ty'] or '').strip() == 'E']
+        if len(tparams) != 1:
+            continue
+        tp = tparams[0]
+        if fn.family == 'seg':
+            props = ['C03', 'C16']
+        elif fn.self_adt in prog.list_adts:
+            props = ['C13', 'C07'] if fn.trait_method() == 'into_ordered_vec' else ['C13']
+        else:
+            props = ['C07'] if fn.trait_method() == 'into_ordered_vec' else {'get_value': ['C06'], 'insert': ['C01', 'C06']}.get(fn.trait_method(), ['C01'])
+        bad = None
+        seen_call = False
+        for c in b.calls:
+            tgt = prog.resolve(c)
+            if tgt is None or tgt.is_closure:
+                continue
+            for a in c.args:
+                if (a.ty or '').strip() != 'E':
+                    continue
+                seen_call = True
+                sa = strip(a)
+                if not (sa is not None and sa.kind == 'param' and sa.args[0] == tp):
+                    bad = (c, sa)
+        if not seen_call:
+            continue
+        n += 1
+        if bad:
+            c, sa = bad
+            ctx.add(RULE, fn, 'time-passed-on', 'violation', '%s hands %s to %s where its own time parameter `%s` belongs: what that callee filters, purges or scans is decided for another moment than the caller asked about' % (
+                fn.trait_method(), show(sa, 3), prog.resolve(c).name, b.local_name(tp)), props, span_line(c, fn.line))
+        else:
+            ctx.add(RULE, fn, 'time-passed-on', 'ok', 'every time-typed argument handed to the crate\'s functions is the operation\'s own `%s`' % b.local_name(tp), props, fn.line)
+    ctx.stat(RULE, time_passing_operations=n)
+
+
+# ---- the list's export is its buffer, front to back, entry by entry -----------------------------------------------------------------
+def run_list_export(ctx):
+    prog = ctx.prog
+    for fn in prog.fns.values():
+        if fn.is_closure or fn.trait_method() != 'into_ordered_vec' or fn.self_adt not in prog.list_adts:
+            continue
+        b = fn.body
+        problems = []
+        colls = [c for c in b.calls if c.callee_name() == 'collect' and prog.resolve(c) is None]
+        rets = [strip(rv) for rv in b.ret_val.values()]
+        chain_ok = False
+        for c in colls:
+            if not any(r is c for r in rets):
+                continue
+            src = strip(c.args[0]) if c.args else None
+            steps = []
+            while src is not None and src.kind == 'call' and len(steps) < 8:
+                nm = src.callee_name()
+                steps.append(nm)
+                if nm in ('iter', 'into_iter', 'drain'):
+                    base = strip(src.args[0]) if src.args else None
+                    seen = 0
+                    while base is not None and base.kind == 'call' and base.callee_name() in ('deref', 'deref_mut', 'as_slice') and seen < 4:
+                        base = strip(base.args[0])
+                        seen += 1
+                    if base is not None and (prog.self_field(base) == ('buffer',) or (base.kind in ('ref', 'load') and base.fields()[-1:] == ('buffer',) and strip(base.args[0]) is not None and strip(base.args[0]).kind in ('param', 'escaped'))):
+                        chain_ok = True          # (the export consumes `self`: the buffer is a field of the parameter itself)
+                    break
+                if nm not in ('map', 'copied', 'cloned'):
+                    problems.append('the export runs its buffer through `%s`: entries are dropped, reordered or repeated' % nm)
+                    break
+                src = strip(src.args[0]) if src.args else None
+        if not colls or not any(any(r is c for r in rets) for c in colls):
+            # another construction of the result (a loop of pushes, `to_vec`, ..): not read by this clause
+            ctx.add(RULE, fn, 'list-export-order', 'info', 'the list export is not a collect over the buffer: order and completeness are not decided by this clause', LIST_PROPS, fn.line, nontrivial=False)
+            continue
+        if problems or not chain_ok:
+            ctx.add(RULE, fn, 'list-export-order', 'violation', '; '.join(problems) or 'the exported vector is not collected from `buffer.iter()`', ['C07', 'C13'], fn.line)
+        else:
+            ctx.add(RULE, fn, 'list-export-order', 'ok', 'the export collects the purged buffer front to back, entry by entry', ['C07', 'C13'], fn.line)
